@@ -205,13 +205,42 @@ def rule_wire(r, seq):
     return f'{pat_wire(r[0], seq)}={rat(r[1])}'
 
 
+MISSING_NAMES = []     # (module, attribute) the library no longer provides; reported as correspondence breaks by run()
+
+
+def lib_name(candidates, required=True):
+    """a name of the library, looked up where it is DEFINED first (then where it used to be re-exported); a missing or
+    renamed name is recorded (run() reports it as a correspondence break) and None is returned - never an exception"""
+    import importlib
+    for mod, attr in candidates:
+        try:
+            obj = importlib.import_module(mod)
+            for part in attr.split('.'):
+                obj = getattr(obj, part)
+            return obj
+        except Exception:  # noqa  (ImportError, AttributeError, errors raised while importing a changed module)
+            continue
+    if required and candidates[0] not in MISSING_NAMES:
+        MISSING_NAMES.append(candidates[0])
+    return None
+
+
+def mass_tables(mono):
+    pre = 'MONOISOTOPIC' if mono else 'AVERAGE'
+    fa = lib_name([('peptacular.chem.chem_constants', pre + '_FRAGMENT_ADJUSTMENTS'), ('peptacular.mass_calc', pre + '_FRAGMENT_ADJUSTMENTS')])
+    io = lib_name([('peptacular.chem.chem_constants', pre + '_FRAGMENT_ION_ADJUSTMENTS'),
+                   ('peptacular.mass_calc', pre + '_FRAGMENT_ION_ADJUSTMENTS')])
+    proton = lib_name([('peptacular.constants', 'PROTON_MASS')])
+    neutron = lib_name([('peptacular.constants', 'NEUTRON_MASS')])
+    return fa, io, proton, neutron
+
+
 def params_wire(mono):
-    from peptacular import mass_calc as mc
-    from peptacular.constants import PROTON_MASS, NEUTRON_MASS
-    fa = mc.MONOISOTOPIC_FRAGMENT_ADJUSTMENTS if mono else mc.AVERAGE_FRAGMENT_ADJUSTMENTS
-    io = mc.MONOISOTOPIC_FRAGMENT_ION_ADJUSTMENTS if mono else mc.AVERAGE_FRAGMENT_ION_ADJUSTMENTS
+    fa, io, proton, neutron = mass_tables(mono)
+    if fa is None or io is None or proton is None or neutron is None:
+        raise LookupError('mass tables of the library are not readable')
     rows = [f'{t}:{rat(fa[t])}:{rat(io[t])}' for t in ION_TYPES]
-    return ';'.join([f'{rat(PROTON_MASS)},{rat(NEUTRON_MASS)},{rat(fa["n"])}'] + rows)
+    return ';'.join([f'{rat(proton)},{rat(neutron)},{rat(fa["n"])}'] + rows)
 
 
 def prepared(a):
@@ -231,7 +260,9 @@ def split_masses(a, mono):
 def label_shifts(a, req):
     """Env.labelShift: mass(empty labelled peptide as this ion) - adjust_mass(0.0, ...) for every requested ion type and charge"""
     import peptacular as pt
-    from peptacular.mass_calc import adjust_mass
+    adjust_mass = lib_name([('peptacular.mass_calc', 'adjust_mass')])
+    if adjust_mass is None:
+        raise LookupError('adjust_mass is not readable')
     _, PA = _mods_api()
     if a._isotope_mods is None:
         return ''
@@ -252,6 +283,13 @@ def label_shifts(a, req):
 
 
 def frag_line(case):
+    try:
+        return _frag_line(case)
+    except Exception as e:  # noqa  a library name / call the harness needs is gone: the line is unreadable for the driver -> disagreement
+        return 'unreadable\t' + type(e).__name__
+
+
+def _frag_line(case):
     op, dump, req, comps = case
     a = annot.undump(dump)
     seq = a.sequence
@@ -507,6 +545,73 @@ def has_terminal_static(a):
     return False
 
 
+def rhe(x, p):
+    """round-half-even of the exact rational x at p decimal places (independent of the library and of float round())"""
+    import math
+    sc = Fraction(10) ** p
+    y = Fraction(x) * sc
+    f = math.floor(y)
+    d = y - f
+    r = f if d < Fraction(1, 2) else (f + 1 if d > Fraction(1, 2) else (f if f % 2 == 0 else f + 1))
+    return Fraction(r) / sc
+
+
+def rounding_error(value, exact, p):
+    """None if `value` is `exact` rounded half-even at p places (p None: unrounded); one unit in the last place is accepted only
+    when `exact` lies within 1e-9 of a tie; otherwise a description"""
+    import math
+    v = Fraction(value)
+    x = Fraction(exact)
+    if p is None:
+        return None if abs(v - x) <= Fraction(1, 10 ** 9) else f'{value!r} is not the unrounded {float(x)!r}'
+    unit = Fraction(1) / Fraction(10) ** p
+    if abs(v / unit - round(v / unit)) > Fraction(1, 10 ** 6):
+        return f'{value!r} is not rounded to {p} decimal places (exact value {float(x)!r})'
+    exp = rhe(x, p)
+    if abs(v - exp) <= Fraction(1, 10 ** 9):
+        return None
+    y = x / unit
+    near_tie = abs((y - math.floor(y)) - Fraction(1, 2)) <= Fraction(1, 10 ** 9) / unit
+    if near_tie and abs(v - exp) <= unit + Fraction(1, 10 ** 9):
+        return None
+    return f'{value!r} is not round-half-even({float(x)!r}, {p}) = {float(exp)!r}'
+
+
+def oracle_mz_rounding(case):
+    """every precision x charge x return type carrying m/z: mass_p is the unrounded mass rounded at p, m/z is mass_p / charge
+    rounded at p - with a rounding that is independent of mass_calc"""
+    import peptacular as pt
+    dump, ions, iso, charge, prec = case[:5]
+    with warnings.catch_warnings():
+        warnings.simplefilter('ignore')
+        def call(rt, p):
+            return pt.fragment(annot.undump(dump), ions, charge, isotopes=iso, return_type=rt, precision=p, water_loss=True)
+        raw = call('mass', None)
+        masses = call('mass', prec)
+        mzs = call('mz', prec)
+        mzl = call('mz-label', prec)
+        mal = call('mass-label', prec)
+        frs = call('fragment', prec)
+        if not (len(raw) == len(masses) == len(mzs) == len(mzl) == len(mal) == len(frs)):
+            return 'ROUND return types of different lengths'
+        for i, m0 in enumerate(raw):
+            where = f'ion {frs[i].label} charge {charge} precision {prec}'
+            e = rounding_error(masses[i], m0, prec)
+            if e:
+                return f'ROUND {where}: mass {e}'
+            e = rounding_error(mzs[i], Fraction(masses[i]) / charge, prec)
+            if e:
+                return f'ROUND {where}: return_type mz {e} (mass {masses[i]!r} / {charge})'
+            for name, v, w in (('mz-label', mzl[i][0], mzs[i]), ('Fragment.mz', frs[i].mz, mzs[i]), ('mass-label', mal[i][0], masses[i]),
+                               ('Fragment.mass', frs[i].mass, masses[i])):
+                if v != w:
+                    return f'ROUND {where}: {name} {v!r} differs from the scalar return type {w!r}'
+            e = rounding_error(frs[i].neutral_mass, Fraction(frs[i].neutral_mass), None)
+            if e:
+                return f'ROUND {where}: {e}'
+    return None
+
+
 MASS_BUDGET = [None]      # quick tier: at most this many fragments per case get the three mass-calculator calls (evenly spread)
 
 
@@ -584,8 +689,9 @@ def oracle_case(case):
                 return f'{key}: internal/monoisotopic flag wrong'
             if f.parent_sequence is not frs[0].parent_sequence and f.parent_sequence != parent:
                 return f'{key}: parent_sequence is not the prepared peptide'
-            if abs(f.mz - f.mass / f.charge) > (1e-9 if prec is None else tol):
-                return f'{key}: mz {f.mz!r} is not mass/charge'
+            rerr = rounding_error(f.mz, Fraction(f.mass) / f.charge, prec)
+            if rerr:
+                return f'ROUND {key}: mz {rerr} (mass {f.mass!r} / charge {f.charge})'
             num = ref_number(f.ion_type, n, s, e)
             if str(f.number) != num:
                 return f'{key}: number {f.number!r}, expected {num}'
@@ -701,6 +807,8 @@ def answer_text(dump, req):
             return repr(pt.fragment(annot.undump(dump), **call_kwargs(req)))
         except ValueError as e:
             return 'ValueError: ' + str(e)
+        except Exception as e:  # noqa
+            return 'EXC:' + type(e).__name__
 
 
 # ----------------------------------------------------------------------------------------------- run
@@ -786,7 +894,14 @@ class LineReach:
 
 def run(chk):
     pt = _pt()
-    from peptacular import fragmentation as fr_mod, constants, spans as sp_mod
+    import types
+    del MISSING_NAMES[:]
+    fr_mod = lib_name([('peptacular', 'fragmentation')])
+    constants = lib_name([('peptacular', 'constants')])
+    sp_mod = lib_name([('peptacular', 'spans')])
+    fr_mod = fr_mod or types.SimpleNamespace(__file__=os.devnull)      # every use below is inside a guarded stage
+    constants = constants or types.SimpleNamespace()
+    sp_mod = sp_mod or types.SimpleNamespace()
     tier, rng = chk.tier, chk.rng
     import time
     t0 = time.time()
@@ -805,6 +920,9 @@ def run(chk):
         'iteration order of the Python set returned by get_losses is not modelled: inside one (span, ion type, isotope) block fragments '
         'are compared after sorting by loss; the other return types are compared as sorted lists and tied to the fragment list '
         'order by the projection oracle',
+        'rounding oracle: mass_p and m/z_p are compared with an independent exact round-half-even (fractions) of the unrounded mass '
+        'and of mass_p / charge, for every precision None/0..6 x charge 1..4 x return type; one unit in the last place is accepted '
+        'only within 1e-9 of a tie, and the value must be a multiple of 10^-p',
         'round(): modelled as round-half-even on the exact rational; implementation values may differ by exactly one unit 10^-p at '
         'ties/double rounding, which the comparison accepts',
         'Fragment.sequence (serialisation of the slice) is compared through annotation dumps; serialisation is property C01',
@@ -830,13 +948,20 @@ def run(chk):
         first_answers.append((annot.dump(a), gen_request(rng, tier, a.sequence)))
     first_answers = [(d, r, answer_text(d, r)) for d, r in first_answers]
 
-    from peptacular.proforma.proforma_parser import ProFormaAnnotation as _PA
-    reach = LineReach([fr_mod.get_number, fr_mod.get_label, fr_mod.get_losses, fr_mod._build_fragments, fr_mod._label_shift,
-                       fr_mod._get_internal_fragments, fr_mod._get_immonium_fragments, fr_mod._get_forward_fragments,
-                       fr_mod._get_backward_fragments, fr_mod._get_terminal_fragments, fr_mod.fragment,
-                       fr_mod.Fragmenter.__init__, fr_mod.Fragmenter.fragment, fr_mod.Fragment.number.func,
-                       fr_mod.Fragment.label.func, _PA.slice, _PA.pop_labile_mods, _PA.contains_sequence_ambiguity]
-                      if hasattr(fr_mod, '_label_shift') else [])
+    _PA = lib_name([('peptacular.proforma.proforma_parser', 'ProFormaAnnotation')])
+    reach_names = [(fr_mod, n) for n in ('get_number', 'get_label', 'get_losses', '_build_fragments', '_label_shift',
+                                         '_get_internal_fragments', '_get_immonium_fragments', '_get_forward_fragments',
+                                         '_get_backward_fragments', '_get_terminal_fragments', 'fragment')]
+    reach_funcs = [getattr(m, n, None) for m, n in reach_names]
+    for owner, names in ((getattr(fr_mod, 'Fragmenter', None), ('__init__', 'fragment')),
+                         (_PA, ('slice', 'pop_labile_mods', 'contains_sequence_ambiguity'))):
+        reach_funcs += [getattr(owner, n, None) for n in names]
+    for n in ('number', 'label'):
+        reach_funcs.append(getattr(getattr(getattr(fr_mod, 'Fragment', None), n, None), 'func', None))
+    for (m, n), f in zip(reach_names, reach_funcs):
+        if f is None and ('peptacular.fragmentation', n) not in MISSING_NAMES:
+            MISSING_NAMES.append(('peptacular.fragmentation', n))
+    reach = LineReach([f for f in reach_funcs if f is not None])
     reach.start()
 
     # ------------------------------------------------------------- (a) small pieces: tables, get_number, get_label, get_losses, spans, slice
@@ -995,6 +1120,9 @@ def run(chk):
         if c[2]['water_loss'] or c[2]['ammonia_loss'] or c[2]['losses']:
             chk.count('with-losses')
 
+    for mod, attr in MISSING_NAMES:
+        chk.disagreements.append({'op': 'library-name', 'line': f'{mod}.{attr}',
+                                  'impl': 'the name is no longer provided by the library', 'model': 'modelled / read by the harness'})
     missing = reach.stop()
     if missing is not None:
         chk.notes.append('lines of the modelled functions not executed by the correspondence inputs: ' +
@@ -1030,6 +1158,21 @@ def run(chk):
             ocases.append(ocase(annot.dump(a), gen_request(rng, tier, a.sequence)))
     chk.oracle('fragment_property', ocases, oracle_case,
                nontrivial_fn=lambda c: len(annot.undump(c[0]).sequence) >= 2, key_fn=lambda c: c[0] + json.dumps(c[1], sort_keys=True))
+
+    # ---- rounding: every precision x charge x return type carrying a mass or m/z, against an independent round-half-even
+    rcases = []
+    rpeps = ['PEPTIDE'] + [''.join(rng.choice(annot.RESIDUES20) for _ in range(rng.randint(2, 9)))
+                           for _ in range(4 if tier == 'quick' else 40)]
+    for sq in rpeps:
+        a = gen_peptide(rng, ambiguous_p=0.0) if rng.random() < 0.3 else _mods_api()[1](_sequence=sq)
+        ions = rng.sample(ION_TYPES, 3) + ['b']
+        for prec in [None, 0, 1, 2, 3, 4, 5, 6]:
+            for charge in (1, 2, 3, 4):
+                rcases.append((annot.dump(a), ions, rng.choice([0, 1]), charge, prec,
+                               {'peptide': a.serialize(), 'call': 'peptacular.fragment(peptide, ion_types, charge, isotopes=.., '
+                                'water_loss=True, precision=.., return_type=each of mass/mz/mass-label/mz-label/fragment)'}))
+    chk.oracle('mz_rounding', rcases, oracle_mz_rounding, nontrivial_fn=lambda c: c[4] is not None and c[3] > 1,
+               key_fn=lambda c: json.dumps(c[:5]))
 
     # ---- state kept on a reused object: one Fragmenter through a sequence of related requests; two objects interleaved
     hcases = []
@@ -1110,6 +1253,12 @@ def replay(chk, obj):
         print('peptides:', case[3]['peptides'] if len(case) > 3 else case[0])
         for i, req in case[2]:
             print('  object', i, json.dumps(req))
+        print('result  :', 'property holds' if r is None else r)
+        return 0 if r is None else 1
+    if obj.get('oracle') == 'mz_rounding':
+        r = oracle_mz_rounding(case)
+        print('peptide :', annot.undump(case[0]).serialize(), ' ion types', case[1], ' isotope', case[2], ' charge', case[3],
+              ' precision', case[4])
         print('result  :', 'property holds' if r is None else r)
         return 0 if r is None else 1
     if obj.get('oracle') == 'fragment_reissued_at_end':
